@@ -56,7 +56,25 @@ func c01Source(r *fw.Rec, s corpus.Source) {
 	}
 	// opt variants (W5) of sources that have function bodies
 	if strings.Contains(text, "define ") && (r.Ctx().Thorough() || rng.Intn(4) == 0) {
-		for _, pass := range [][]string{{"-O1"}, {"-passes=mem2reg,instnamer"}, {"-O2"}, {"-passes=strip-debug"}} {
+		passes := [][]string{{"-O1"}, {"-passes=mem2reg,instnamer"}, {"-O2"}, {"-passes=strip-debug"}}
+		// two more pipelines per source, drawn from transformations that write IR
+		// of their own kind: synthesised debug info, inferred attributes, renamed
+		// and named-anonymous values, demoted registers, lowered switches and
+		// invokes, scalarised vectors, instrumentation (profiling, coverage,
+		// sanitizers), split and merged functions
+		extra := [][]string{
+			{"-passes=debugify"}, {"-passes=attributor"}, {"-passes=metarenamer"}, {"-passes=name-anon-globals"},
+			{"-passes=reg2mem"}, {"-passes=lowerswitch,lowerinvoke"}, {"-passes=scalarizer"}, {"-passes=pgo-instr-gen,instrprof"},
+			{"-passes=sancov-module", "-sanitizer-coverage-level=3"}, {"-passes=tsan-module,tsan"}, {"-passes=msan-module"}, {"-passes=hotcoldsplit", "-hotcoldsplit-threshold=-1"},
+			{"-passes=mergefunc"}, {"-passes=function-attrs,inferattrs,argpromotion,deadargelim"}, {"-passes=sroa,early-cse,instcombine"}, {"-passes=loop-simplify,lcssa,loop-rotate,licm"},
+			{"-passes=break-crit-edges,mergereturn,unify-loop-exits"}, {"-passes=structurizecfg"}, {"-passes=slp-vectorizer,vector-combine"}, {"-passes=globalopt,globaldce,constmerge,strip-dead-prototypes"},
+			{"-passes=debugify,sroa,instcombine,strip-nonlinetable-debuginfo"}, {"-passes=add-discriminators,debugify"}, {"-passes=strip-nondebug"}, {"-passes=loweratomic,lower-expect"},
+			{"-passes=insert-gcov-profiling"}, {"-passes=dfsan"}, {"-passes=memprof"}, {"-passes=partial-inliner,always-inline,module-inline"},
+		}
+		for k := 0; k < 2; k++ {
+			passes = append(passes, extra[rng.Intn(len(extra))])
+		}
+		for _, pass := range passes {
 			if !r.Ctx().Thorough() && rng.Intn(2) == 0 {
 				continue
 			}
@@ -193,6 +211,12 @@ func c01One(r *fw.Rec, id, variant, x string, unrep bool) {
 				r.Tally("unrepresentable", "constant-expression-"+op+"-reported-as-error")
 				return
 			}
+		}
+		if gc := grammarClass(x, perr.Error()); cls == "grammar-reject" && gc != "" {
+			// a listed shortcoming of the llir/ll grammar, recognised on the line the
+			// syntax error points at (a predicate on the input, whatever module it is in)
+			r.Violate(fw.Violation{Key: "grammar-reject/class:" + gc, Input: x, What: "a module LLVM accepts (" + id + "/" + variant + ") is rejected by the parser: " + firstLine(perr.Error()) + ": " + fw.Trunc(strings.TrimSpace(errorLine(x, perr.Error())), 160)})
+			return
 		}
 		r.Violate(fw.Violation{Key: cls + "/" + key, Input: x, What: "a module LLVM accepts is rejected by the parser: " + firstLine(perr.Error())})
 		return
@@ -465,4 +489,51 @@ func sameSignLit(a, b string) bool {
 		return 0
 	}
 	return sign(ka, va) == sign(kb, vb)
+}
+
+var reErrLine = regexp.MustCompile(`syntax error at line ([0-9]+)`)
+
+// errorLine returns the line of x a syntax error message points at ("" if none).
+func errorLine(x, msg string) string {
+	m := reErrLine.FindStringSubmatch(msg)
+	if m == nil {
+		return ""
+	}
+	n, _ := strconv.Atoi(m[1])
+	lines := strings.Split(x, "\n")
+	if n < 1 || n > len(lines) {
+		return ""
+	}
+	return lines[n-1]
+}
+
+var (
+	reFreezeMD     = regexp.MustCompile(`^\s*(%("[^"]*"|\S+)\s*=\s*)?freeze\s[^!]*,\s*![A-Za-z_.]`)
+	reRetAlign     = regexp.MustCompile(`\balign [0-9]+`)
+	reCallLikeLine = regexp.MustCompile(`^\s*(define|declare)\b|\b(call|invoke|callbr)\b`)
+)
+
+// grammarClass recognises, on the line a syntax error points at, the constructs
+// of LLVM 14 that the llir/ll grammar (a dependency) is known not to read:
+// a metadata attachment on freeze, and the return attribute `align N` (in a
+// function header or at a call site it stands before the result type, i.e.
+// before the first parenthesis of the line).
+func grammarClass(x, msg string) string {
+	line := errorLine(x, msg)
+	if line == "" {
+		return ""
+	}
+	if reFreezeMD.MatchString(line) {
+		return "freeze-with-metadata-attachment"
+	}
+	if reCallLikeLine.MatchString(line) {
+		head := line
+		if i := strings.IndexByte(head, '('); i >= 0 {
+			head = head[:i]
+		}
+		if reRetAlign.MatchString(head) {
+			return "return-attribute-align"
+		}
+	}
+	return ""
 }
